@@ -268,6 +268,7 @@ func TestC05Rapid(t *testing.T) {
 		doc := xgen.Doc(rt, shapedOpts)
 		ctx := xgen.Context(rt, doc, 4)
 		g := xgen.NewG(rt, doc)
+		g.ExtraFuncs = true
 		var e xast.Expr
 		nodeSet := false
 		alone := "" // for regex calls on literals: the value computed independently of the engine
